@@ -108,3 +108,47 @@ func VerifLemma_C16A_DefaultSkipsForeignPaths() {
 		verifAssert(err == nil && !lc.Disabled() && len(lc.IgnorePaths()) == 0, "default section: ignore path outside the module is skipped")
 	}
 }
+
+// VerifLemma_C16A_IgnoreOnlyRebased: ignore_only of a lint (v2) and breaking section read for a module at a
+// directory other than ".": a path inside the module is stored relative to the module directory under its rule id,
+// a path outside is dropped (workspace-level section) or an error (module-level section), an entry left without
+// paths disappears.
+func VerifLemma_C16A_IgnoreOnlyRebased() {
+	depth, n := verifParam("DEPTH"), verifParam("N")
+	dir := vRelPath(depth, n)
+	p := vRelPath(depth+1, n)
+	require := verifNondetBool()
+	id := vIDPool[0]
+	inside := len(p) > len(dir) && p[:len(dir)] == dir && p[len(dir)] == '/'
+	var got map[string][]string
+	var err error
+	if verifNondetBool() {
+		var bc BreakingConfig
+		bc, err = getBreakingConfigForExternalBreaking(FileVersionV2, externalBufYAMLFileBreakingV1Beta1V1V2{IgnoreOnly: map[string][]string{id: {p}}}, dir, require)
+		if err == nil {
+			got = bc.IgnoreIDOrCategoryToPaths()
+		}
+	} else {
+		var lc LintConfig
+		lc, err = getLintConfigForExternalLintV2(FileVersionV2, externalBufYAMLFileLintV2{IgnoreOnly: map[string][]string{id: {p}}}, dir, require)
+		if err == nil {
+			got = lc.IgnoreIDOrCategoryToPaths()
+		}
+	}
+	verifCover("read")
+	if inside {
+		verifCover("inside")
+		verifAssert(err == nil && len(got) == 1 && len(got[id]) == 1 && got[id][0] == p[len(dir)+1:], "ignore_only path inside the module is stored relative to the module directory")
+		return
+	}
+	if p == dir {
+		// the module directory itself: relative path "."
+		verifAssert(err == nil && len(got) == 1 && len(got[id]) == 1 && got[id][0] == ".", "ignore_only of the module directory itself is '.'")
+		return
+	}
+	if require {
+		verifAssert(err != nil, "module-level section: ignore_only path outside the module is an error")
+	} else {
+		verifAssert(err == nil && len(got) == 0, "workspace-level section: ignore_only path outside the module is dropped with its entry")
+	}
+}
